@@ -65,6 +65,17 @@ def run_ion(exe, d, cf, seed, niter=2, timeout=45):
     return rc, recs, cmd, env
 
 
+def run_rhd_rad(exe, d, cf, seed, timeout=90):
+    """The radiation loop of the radiation-hydrodynamics simulation (the second copy of the worker loop): two time steps
+    with two photoionization iterations each; opacities chosen so that packets are absorbed and cross subgrids."""
+    r = hydrolib.run_rhd(exe, d, tuple(cf["n"]), tuple(cf["per"]), threads=cf["nthr"], steps=2, ncell_per_sub=(4, 4, 4),
+                         seed=seed, jitter=cf["nthr"] > 1, timeout=timeout, radiation=True, nphoton=cf["np"], niter=2,
+                         diffuse=0.4 if cf["diffuse"] else None, copy_level=cf["copy"], sigma_h="3.e-6 m^2",
+                         luminosity=1.e20, alpha_h="1.e12 m^3 s^-1", nsources=cf["nsrc"],
+                         nbuffers=4000, ntasks=40000, xh=1.0)
+    return r["rc"], r["trace"], r["cmd"], r["env"]
+
+
 def ledger_trace(recs):
     ev = [{k: v for k, v in r.items() if k not in ("q", "th")} for r in recs if r["e"] in KEEP]
     nb = 1
@@ -183,15 +194,24 @@ def run(c):
     must.append(rng.choice([x for x in cfgs if x["nsrc"] == 3 and x["copy"] >= 1 and x["np"] in (7777, 999) and max(x["n"]) > 1]))
     must.append(rng.choice([x for x in cfgs if x["nsrc"] == 3 and x["copy"] == 0 and x["nthr"] >= 4 and max(x["n"]) > 1]))
     sample = must + rng.sample([x for x in cfgs if x not in must], max(0, nrun - len(must)))
+    # the second copy of the worker loop (radiation step of the RHD simulation): discrete sources only
+    rcand = [x for x in cfgs if x["src"] == "D" and x["n"] != [1, 1, 4]]
+    rmust = [rng.choice([x for x in rcand if x["diffuse"] == 1 and x["copy"] == 2 and x["nthr"] >= 4 and max(x["n"]) > 1]),
+             rng.choice([x for x in rcand if x["diffuse"] == 0 and x["nsrc"] == 3 and x["nthr"] >= 2 and max(x["n"]) > 1]),
+             rng.choice([x for x in rcand if x["nthr"] == 1 and x["diffuse"] == 1])]
+    nrhd = 6 if tier == "quick" else 60
+    rsample = rmust + rng.sample([x for x in rcand if x not in rmust], nrhd - len(rmust))
+    sample = sample + [dict(x, rhd=1) for x in rsample]
 
     # ---- 3. real iterations ------------------------------------------------------------
     def rjob(k):
         cf = sample[k]
         d = os.path.join(rd, "ion_%d" % k)
         seed = c.seed * 1000 + k
-        rc, recs, cmd, env = run_ion(exe, d, cf, seed)
+        runner = run_rhd_rad if cf.get("rhd") else run_ion
+        rc, recs, cmd, env = runner(exe, d, cf, seed)
         if rc == 124:
-            rc, recs, cmd, env = run_ion(exe, d, cf, seed, timeout=90)
+            rc, recs, cmd, env = runner(exe, d, cf, seed, timeout=180)
         out = dict(k=k, cf=cf, rc=rc, cmd=cmd, env=env, status=None, tlc=None, nrec=0, tail=recs[-3:], tr=None)
         if rc == 0:
             out["tr"] = ledger_trace(recs)
@@ -233,12 +253,13 @@ def run(c):
 
     for o in results:
         cf = o["cf"]
-        key = "src=%s diffuse=%d layout=%s per=%s copy=%d threads=%d packets=%d" % (
-            cf["src"], cf["diffuse"], "x".join(map(str, cf["n"])), "".join(map(str, cf["per"])), cf["copy"], cf["nthr"], cf["np"])
+        key = "%ssrc=%s diffuse=%d layout=%s per=%s copy=%d threads=%d packets=%d" % (
+            "rhd " if cf.get("rhd") else "", cf["src"], cf["diffuse"], "x".join(map(str, cf["n"])), "".join(map(str, cf["per"])),
+            cf["copy"], cf["nthr"], cf["np"])
         c.add_case(key, nontrivial=cf["nthr"] > 1 or cf["diffuse"] == 1 or cf["src"] != "D")
         if o["rc"] != 0:
             kind = "hang" if o["rc"] == 124 else "exit-%d" % o["rc"]
-            c.violation("ledger:%s:src=%s:diffuse=%d" % (kind, cf["src"], cf["diffuse"]),
+            c.violation("ledger:%s:%ssrc=%s:diffuse=%d" % (kind, "rhd:" if cf.get("rhd") else "", cf["src"], cf["diffuse"]),
                         "photoionization run did not finish normally (%s, reproduced): %s" % (kind, key),
                         {"config": cf, "cmd": o["cmd"], "env": o["env"], "last_events": o["tail"]})
             continue
@@ -253,7 +274,7 @@ def run(c):
             keep = c.replay_path("ledger_%d.ndjson" % o["k"])
             shutil.copy(o["path"], keep)
             bad = re.findall(r"/\\ bad = (\{[^}]*\})", o["tlc"].out)
-            c.violation("ledger:%s:src=%s:diffuse=%d" % (o["status"], cf["src"], cf["diffuse"]),
+            c.violation("ledger:%s:%ssrc=%s:diffuse=%d" % (o["status"], "rhd:" if cf.get("rhd") else "", cf["src"], cf["diffuse"]),
                         "iteration of the real simulation violates Layer A (%s, tags %s): %s" % (
                             o["status"], bad[-1] if bad else "?", key),
                         {"trace": keep, "config": cf, "at_record": tr[pos - 1] if pos and pos <= len(tr) else None,
@@ -264,8 +285,10 @@ def run(c):
     vlib.log("model: PhotonSched %s: %d distinct states, invariants + termination hold" % (mcfgs, c.cov["states"]))
     if "sample" in results[0]:
         c.sample({"config": results[0]["cf"], "records": results[0]["sample"]})
-    vlib.log("real iterations: %d configurations (2 iterations each), %d traces accepted by Layer A" % (
-        len(sample), c.cov["traces_validated_against_impl"]))
+    vlib.log("real iterations: %d configurations (2 iterations each; %d of them the radiation step of the RHD simulation, "
+             "2 steps x 2 iterations), %d traces accepted by Layer A" % (
+                 len(sample), len(rsample), c.cov["traces_validated_against_impl"]))
+    c.cov["rhd_radiation_runs"] = len(rsample)
 
     # ---- 4. self-test ---------------------------------------------------------------------
     good = next((o for o in results if o["status"] == "accepted"), None)
@@ -285,7 +308,7 @@ def run(c):
     c.cov["exhaustive"] = False
     c.assumptions += ["packets are counted, not identified: two compensating errors inside one record would cancel",
                       "the pools are large enough (the property's proviso)",
-                      "trackers and the RHD variant of the loop are not exercised by this check"]
+                      "trackers are not exercised by this check; the RHD variant of the loop only with discrete sources (it has no others)"]
 
 
 def build_quota():
